@@ -53,14 +53,15 @@ Logged(ln, a, e) ==
    al |-> IF BN(LOp(ln)) \in SelectOps /\ Len(ln.src) = Len(ln.sel) THEN a.al /\ ln.src = ln.sel ELSE a.al]
 
 Ended(ln, o, a) == \/ ln.out = "xr_refused" /\ (BN(o) \notin OwnOps \/ o.op \in GselOps)
-                   \/ ln.out = "refused" /\ IsFree(o, a)
+                   \/ ln.out = "refused" /\ (IsFree(o, a) \/ (BN(o) \in {"remap_idw_face", "remap_idw_node"} /\ ln.presize < 2))
 
 (* ---- the clauses of one step -------------------------------------------- *)
 \* (operator arguments are evaluated once by TLC, LET definitions at every use: hence the two levels)
 ClausesOf(ln, a, G, o, free, e, L, val, mixed) ==
-  [ Raises   |-> ln.out # "raised" /\ (ln.out = "refused" => free) /\ (ln.out = "xr_refused" => (BN(o) \notin OwnOps \/ o.op \in GselOps)),
+  \* (inverse distance weighting needs at least two source elements: refusing a one-element operand is in order)
+  [ Raises   |-> ln.out # "raised" /\ (ln.out = "refused" => free \/ (BN(o) \in {"remap_idw_face", "remap_idw_node"} /\ ln.presize < 2)) /\ (ln.out = "xr_refused" => (BN(o) \notin OwnOps \/ o.op \in GselOps)),
     IsUx     |-> val => IsUxArr(L),
-    SameGrid |-> (val /\ IsUxArr(L)) => IF free THEN L.grid \in {a.grid, NewHandle(G)} ELSE L.grid = e.grid,
+    SameGrid |-> (val /\ IsUxArr(L)) => IF free THEN L.grid \in {a.grid, NewHandle(G), e.grid} ELSE L.grid = e.grid,
     DimsEffect |-> val => IF BN(o) \in FreeOps
                           THEN /\ Len(L.dims) = Len(a.dims)
                                /\ \A i \in 1..Len(a.dims) : /\ L.dims[i].k = a.dims[i].k
